@@ -597,6 +597,7 @@ def run(ctx, rep):
     rep.count("c_iv_constants", len(civ))
 
     new = F.fn("simplicity::node::redeem::RedeemData::new")
+    new = F.inlined(new) if new is not None else None   # private same-file helpers are spliced in
     if new is None:
         rep.anchor("C03.cost", "RedeemData::new")
         return FINISH
